@@ -196,6 +196,32 @@ fn gen_text(r: &mut Rng, c: &Cfg, fam: u64, big: bool) -> Vec<u8> {
                 }
             }
         }
+        7 | 8 => {
+            // NO quote byte at all (engines may take a quote-free fast path): fixed-size records
+            // and delimiters / newlines at every lane edge (bits 15,16,31,32,47,48,63,0)
+            let len = *r.pick(&[64usize, 65, 96, 127, 128, 129, 192, 200, 256, 320, 400]);
+            soup(r, c, len, 0, 0, 0, &mut t);
+            if r.coin() {
+                let rec = *r.pick(&[8usize, 16, 32, 64, 24]);
+                let mut p = rec - 1;
+                while p < len {
+                    t[p] = c.n;
+                    if p >= 3 && r.coin() {
+                        t[p - 2] = c.d;
+                    }
+                    p += rec;
+                }
+            } else {
+                for chunk in 0..(len / 64 + 1) {
+                    for &bit in &[15usize, 16, 31, 32, 47, 48, 63, 0, 1, 62] {
+                        let p = chunk * 64 + bit;
+                        if p < len && r.chance(1, 3) {
+                            t[p] = if r.coin() { c.n } else { c.d };
+                        }
+                    }
+                }
+            }
+        }
         _ => {
             let len = r.below(4) as usize;
             soup(r, c, len, 30, 25, 30, &mut t);
@@ -213,7 +239,7 @@ fn record(args: &Args) {
     for i in 0..texts {
         let c = cfg_for(i % 40, &mut r);
         let big = i >= texts - nbig.min(texts);
-        let fam = if i + 1 == texts && big { 98 } else { r.below(7) };
+        let fam = if i + 1 == texts && big { 98 } else { r.below(10) };
         let text = gen_text(&mut r, &c, fam, big);
         let len = text.len();
         tr.emit(json!({"e":"text","fam": if big { 99 } else { fam },"d":c.d,"q":c.q,"n":c.n,"len":len,"b":bytes_json(&text)}));
